@@ -823,7 +823,11 @@ class Builder:
                         while sname.lower() in self._svc_names.used:
                             sname = names.fresh(sname)
                         self._svc_names.used.add(sname.lower())
-                    svc = {"name": sname, "host": host, "methods": []}
+                    shost = host
+                    if self.p.get("p_host_per_service") and self.coin("p_host_per_service"):
+                        # services of one API on different hosts (region tags, default endpoints and scopes are per service)
+                        shost = self.d(st.sampled_from(["archive.acme.com", "lib.acme.com", "storage.googleapis.com", "other-api.example.org"]))
+                    svc = {"name": sname, "host": shost, "methods": []}
                     if self.d(st.booleans()):
                         svc["scopes"] = ["https://www.googleapis.com/auth/cloud-platform"] + (["https://www.googleapis.com/auth/other"] if self.d(st.booleans()) else [])
                     mnames = Names()
@@ -831,7 +835,7 @@ class Builder:
                         mnames = self._shared_mnames = getattr(self, "_shared_mnames", None) or Names()
                         mnames = Names() if self.d(st.booleans()) else mnames
                     for _ in range(self.d(st.integers(1, self.p["max_methods"]))):
-                        svc["methods"].append(self.method(file, pkg, names, fi, mnames, host))
+                        svc["methods"].append(self.method(file, pkg, names, fi, mnames, shost))
                     c = self.comment()
                     if c:
                         svc["comment"] = c
